@@ -18,7 +18,8 @@ from checks import c03  # noqa: E402
 
 
 def one(data):
-    sig, detail = c03.feed_datagrams(c03.split_payloads(bytes(data)))
+    data = bytes(data)
+    sig, detail = c03.feed_datagrams(c03.split_payloads(data), greasy=bool(data and data[-1] & 1))     # as c03.evaluate_datagrams({"hex": ...})
     if sig:
         raise RuntimeError(sig + " | " + detail)
 
